@@ -146,13 +146,13 @@ func (d *Device) handleABSEvent(ie *input.InputEvent) {
 		if value > -deadzone {
 			value = 0
 		} else {
-			value = (value + deadzone) * (1.0 / (1.0 - deadzone))
+			value = (value + deadzone) / (1.0 - deadzone)
 		}
 	} else {
 		if value < deadzone {
 			value = 0
 		} else {
-			value = (value - deadzone) * (1.0 / (1.0 - deadzone))
+			value = (value - deadzone) / (1.0 - deadzone)
 		}
 	}
 
